@@ -445,3 +445,20 @@ Proof.
   destruct (lru_step c (cf_obj cf) (mkClk (cf_now cf) ds)) as [[[r s'] k']| |] eqn:Es; try discriminate.
   eexists. eapply S_body; eauto.
 Qed.
+
+(* under concurrency a lookup still returns exactly the ideal answer: the ideal map is that of
+   the sequential witness of the execution so far *)
+Lemma conc_lru_get_l : forall m t0 c0 ls cf t key ds cf',
+  lru_init m = Ok c0 -> exec lru_step (init_conf c0 t0) ls cf ->
+  cstep lru_step cf (LBody t (Get key) ds) cf' ->
+  exists g r, lru_reach m t0 (witness ls) g (cf_obj cf, cf_now cf) /\
+              cf_ph cf' t = Finished (Get key) r /\
+              r = expected (fst g) key (cf_now cf').
+Proof.
+  intros m t0 c0 ls cf t key ds cf' H0 He Hs.
+  destruct (conc_lru_reach _ _ _ _ _ H0 He) as [g [Hr Hm]].
+  inversion Hs as [| |cf0 u c ds0 r s' k' Hph Hl Hds Hst| | |]; subst.
+  exists g, r. split; [exact Hr|]. cbn [cf_ph cf_now]. split; [apply upd_same|].
+  apply (lru_get_l m t0 (witness ls) g (cf_obj cf, cf_now cf) key ds r (s', now k') Hm Hr Hds).
+  cbn [wstep fst snd]. rewrite Hst. reflexivity.
+Qed.
